@@ -141,7 +141,7 @@ func init() {
 		ID:      "C18",
 		Flavour: "plain",
 		Rule: "cases = (byte stream, read-granularity script, failure point): streams composed of 32-byte blocks from {0, n, 1, n-1, n+1, 2n-2^256.., 2^256-1, n with one limb perturbed, structured, random}; " +
-			"0..5 skipped blocks (0 and n) before the first usable one; read granularities 1,7,31,32,33, whole request, zero-length reads without error, mixed scripts; " +
+			"0..5 skipped blocks (0 and n) in every pattern, and runs of 6..100 skipped blocks, before the first usable one; read granularities 1,7,31,32,33, whole request, zero-length reads without error, mixed scripts; " +
 			"failures at byte 0,1,31,32,33,63,64,.. and after k skipped blocks, delivered either as a separate failing read or together with the last bytes; receiver pre-loaded with a known value. " +
 			"Oracle: the first block whose value mod n is non-zero, reduced mod n (math/big); result must be in [1,n-1] with stored limbs < n; if the source fails before such a block is complete, Random must panic. " +
 			"Concurrent runs: 2..16 goroutines call Random simultaneously on scalars they own while the source serves every read a fresh unique block and yields the processor just before returning: every result must be a served block and none may repeat. non-trivial = stream with at least one skipped block, a block >= n, a non-trivial chunking or a failure; distinct by the whole case.",
@@ -231,6 +231,25 @@ func c18Generate(c *mon.Ctx) {
 					}
 				}
 			}
+		}
+	}
+
+	// 2b. long runs of rejected blocks (a bounded redraw loop gives up somewhere)
+	for _, run := range []int{6, 7, 8, 9, 10, 15, 16, 17, 31, 32, 33, 64, 100} {
+		for pat := 0; pat < 3; pat++ {
+			var stream []byte
+
+			for i := 0; i < run; i++ {
+				if (pat == 0) || (pat == 2 && i%2 == 0) {
+					stream = append(stream, zeroB...)
+				} else {
+					stream = append(stream, nB...)
+				}
+			}
+
+			full := mon.H(append(stream, oracle.Bytes32(blocks[(run+pat)%len(blocks)].X)...))
+			ch := chunkScripts[(run+pat)%len(chunkScripts)]
+			c.Structured(func() any { return &c18Case{Stream: full, Chunks: ch, FailAt: -1, Pre: "99", Class: fmt.Sprintf("long-run=%d", run)} })
 		}
 	}
 
